@@ -10,6 +10,7 @@
 mod c01;
 mod c02;
 mod c03;
+mod c03x;
 mod c04;
 mod c05;
 mod c06;
@@ -53,6 +54,7 @@ fn main() {
                 "C01" => c01::gen(seed, thorough),
                 "C02" => c02::gen(seed, thorough),
                 "C03" => c03::gen(seed, thorough),
+                "C03x" => c03x::gen(seed, thorough),
                 "C04" => c04::gen(seed, thorough),
                 "C05" => c05::gen(seed, thorough),
                 "C06" => c06::gen(seed, thorough),
@@ -122,6 +124,7 @@ fn prop_run(prop: &str, line: &str) -> Option<(String, Vec<String>)> {
         "C01" => c01::run(line),
         "C02" => c02::run(line),
         "C03" => c03::run(line),
+        "C03x" => c03x::run(line),
         "C04" => c04::run(line),
         "C05" => c05::run(line),
         "C06" => c06::run(line),
